@@ -87,6 +87,13 @@ def build_leaf(name):
         return getattr(M, c)(arr(l["p1"])[0])
     if c in ("TriangularMatrix", "InverseTriangularMatrix"):
         return getattr(M, c)(arr(l["p1"]), lower=l["lower"])
+    if c in ("TriangularFactoredDefiniteMatrix", "TriangularFactoredPositiveDefiniteMatrix") and l.get("factor_obj") == "TriangularMatrix":
+        # the factor handed over as a ready-made TriangularMatrix: `factor_is_lower` is documented as ignored then
+        # (left at its default: None for the base class, True for the positive definite subclass)
+        fobj = M.TriangularMatrix(arr(l["p1"]), lower=l["lower"])
+        if c == "TriangularFactoredPositiveDefiniteMatrix":
+            return M.TriangularFactoredPositiveDefiniteMatrix(fobj)
+        return M.TriangularFactoredDefiniteMatrix(fobj, sign=l["sign"])
     if c == "TriangularFactoredDefiniteMatrix":
         if l.get("factor_obj") == "InverseTriangularMatrix":
             # factor given as an InverseTriangularMatrix whose value is p1
